@@ -131,6 +131,7 @@ class Values(object):
     def __init__(self, avoid, flavor='plain', icvn='00401'):
         self.avoid = set(avoid)
         self.flavor = flavor
+        self.keep_empty_tail = 0.0      # probability of leaving trailing empty components in a composite ("HC:X::")
         base = [c for c in ALNUM if c not in self.avoid]
         punct = [c for c in BASIC_PUNCT if c not in self.avoid]
         ext = [c for c in EXT_PUNCT if c not in self.avoid]
@@ -309,8 +310,10 @@ def gen_segment(seg, r, values, p_opt=.3):
                 if not k:
                     raise GenFail('composite %s has no usable component' % c.id)
                 sub[k[0]] = values.simple(c.children[k[0]], r)
-            while len(sub) > 1 and sub[-1] == '':
-                sub.pop()
+            keep = getattr(values, 'keep_empty_tail', 0.0)
+            if not (keep and r.random() < keep):
+                while len(sub) > 1 and sub[-1] == '':
+                    sub.pop()
             vals.append(sub)
         else:
             fmt = None
